@@ -25,7 +25,8 @@ RULE = (
     "of another / an earlier connection / prefix / empty, relay URL equal / prefix / substring / superstring / empty / "
     "case / trailing slash, tags missing / bare / duplicated / extra, payload of wrong JSON type; plus the AUTH "
     "sequences good->bad, bad->good, P1->P2, P1->replayed P2 answer of another connection, an answer ACCEPTED on its own "
-    "connection replayed on one / two other connections and on the same connection 700 s later). Non-trivial = a payload the "
+    "connection replayed on one / two other connections and on the same connection 700 s later, the id and sig of one "
+    "identity's accepted answer under another pubkey, both time bounds with a relay clock of NOW+0.99 s). Non-trivial = a payload the "
     "reference rejects (must-refuse) or an identity-preservation check after a failed attempt. Distinct = distinct "
     "(config, mutation label, prior identity)."
 )
@@ -273,6 +274,42 @@ async def run_payloads(backend, urls_kind, counters, seed):
                     viols.append({"key": "sequence/%s" % seqname,
                                   "msg": "[%s/%s] the answer signed for the challenge of one connection and accepted there made ANOTHER connection (own challenge %s...) %s" % (backend, urls_kind, (ch2 or "")[:8], got),
                                   "replay": rp})
+        # ---- the relay's clock is not a whole number of seconds ---------------------------------------
+        for dt, verdict in ((-601, "REFUSE"), (-600, "REFUSE"), (-599, "ACCEPT"), (599, "ACCEPT"), (600, "ACCEPT"), (601, "REFUSE")):
+            clock.now = NOW + 0.99
+            conn, ch = await fresh_conn("f%d" % dt)
+            ev = ref.make_event(p1, kind=22242, created_at=NOW + dt, tags=[["relay", url], ["challenge", ch]], content="")
+            await conn.cmd(["AUTH", ev])
+            await rig.quiesce()
+            got = "anon" if conn.exited else await identity_of(rig, conn, p1, 300000 + dt)
+            clock.now = NOW
+            bump(pc, "must_refuse" if verdict == "REFUSE" else "must_accept")
+            nontrivial.append(h([urls_kind, "fractional-clock", dt]))
+            age = 0.99 - dt
+            if verdict == "REFUSE" and got != "anon":
+                viols.append({"key": "accepted/created_at/fractional-clock", "msg": "[%s/%s] an answer timestamped %.2f s %s the relay's clock (ten minutes = 600 s) authenticated the connection"
+                              % (backend, urls_kind, abs(age), "before" if age > 0 else "after"), "replay": {"backend": backend, "urls": urls_kind, "label": "fractional-clock"}})
+            if verdict == "ACCEPT" and got != "P1":
+                viols.append({"key": "valid-answer-refused/created_at/fractional-clock", "msg": "[%s/%s] an answer timestamped %.2f s %s the relay's clock was refused"
+                              % (backend, urls_kind, abs(age), "before" if age > 0 else "after"), "replay": {"backend": backend, "urls": urls_kind, "label": "fractional-clock"}})
+        # ---- somebody else's verified id and signature under the victim's name -----------------------
+        counters["sequences"] = counters.get("sequences", 0) + 1
+        connx, chx = await fresh_conn("x-own")
+        own = ref.make_event(p2, kind=22242, created_at=NOW, tags=[["relay", url], ["challenge", chx]], content="")
+        await connx.cmd(["AUTH", own])
+        if await identity_of(rig, connx, p1, 400001) == "P2":
+            for variant in ("same-id-and-sig", "same-id-and-sig-own-content"):
+                conny, chy = await fresh_conn("y-" + variant)
+                forged = {"id": own["id"], "sig": own["sig"], "pubkey": p1.pk, "created_at": NOW, "kind": 22242,
+                          "tags": [["relay", url], ["challenge", chy]], "content": "" if variant == "same-id-and-sig" else "x"}
+                await conny.cmd(["AUTH", forged])
+                await rig.quiesce()
+                got = "anon" if conny.exited else await identity_of(rig, conny, p1, 400002 + len(variant))
+                nontrivial.append(h([urls_kind, "seq", "verified-id-reused", variant]))
+                if got != "anon":
+                    viols.append({"key": "sequence/verified-id-and-sig-reused-under-another-pubkey",
+                                  "msg": "[%s/%s] after P2 authenticated honestly, an AUTH naming P1 as pubkey but carrying the id and sig of P2's answer made the connection %s" % (backend, urls_kind, got),
+                                  "replay": {"backend": backend, "urls": urls_kind, "label": "seq:verified-id-reused"}})
         # ---- challenge provenance ---------------------------------------------------------------------
         counters["challenges_checked"] = counters.get("challenges_checked", 0) + len(chs)
         issued_vals = [v for _, v in issued]
